@@ -416,8 +416,25 @@ fn lazy_converters<R: Reader<Offset = usize>>(
                         Ok(Some(seq)) => {
                             ctx.item();
                             ev!(ctx, "seq rows={}", seq.rows.len());
-                            // (rows are not fed to `generate_row` here: it documents a panic for
-                            // advances the caller did not validate; `convert()` above does both)
+                            // add it to the converted program the documented way: every row is
+                            // checked before it is generated (rows that fail the check are
+                            // skipped by this caller, who ignores errors)
+                            if let Some(start) = seq.start {
+                                match _convert_address(start) {
+                                    Some(a) => conv.set_address(a),
+                                    None => continue,
+                                }
+                            }
+                            for row in seq.rows {
+                                if conv.check_advance(row.address_offset, row.op_index).is_ok() {
+                                    conv.generate_row(row);
+                                }
+                            }
+                            if let write::ConvertLineSequenceEnd::Length(length) = seq.end {
+                                if conv.check_end_sequence(length).is_ok() {
+                                    conv.end_sequence(length);
+                                }
+                            }
                         }
                         Ok(None) => {
                             ctx.end();
@@ -430,7 +447,26 @@ fn lazy_converters<R: Reader<Offset = usize>>(
                     }
                 } else {
                     match conv.read_row() {
-                        Ok(Some(_)) => ctx.item(),
+                        Ok(Some(row)) => {
+                            ctx.item();
+                            match row {
+                                write::ConvertLineRow::SetAddress(a) => {
+                                    if let Some(a) = _convert_address(a) {
+                                        conv.set_address(a);
+                                    }
+                                }
+                                write::ConvertLineRow::Row(row) => {
+                                    if conv.check_advance(row.address_offset, row.op_index).is_ok() {
+                                        conv.generate_row(row);
+                                    }
+                                }
+                                write::ConvertLineRow::EndSequence(length) => {
+                                    if conv.check_end_sequence(length).is_ok() {
+                                        conv.end_sequence(length);
+                                    }
+                                }
+                            }
+                        }
                         Ok(None) => {
                             ctx.end();
                             break;
